@@ -306,7 +306,7 @@ func treeProgram(p *idl.Program, layout map[string]string) *idl.Program {
 	}
 	cp := *p
 	cp.Files = nil
-	for _, f := range p.Files {
+	for i, f := range p.Files {
 		nf := *f
 		nf.Includes = nil
 		for _, inc := range f.Includes {
@@ -319,9 +319,23 @@ func treeProgram(p *idl.Program, layout map[string]string) *idl.Program {
 			}
 			nf.Includes = append(nf.Includes, &idl.Include{Path: path})
 		}
+		// two DIFFERENT files of one base name, reached through different
+		// includers (legal: includes resolve relative to the including file):
+		// zz_shared.frugal next to file 0 and sub/zz_shared.frugal next to file 1
+		if i <= 1 {
+			nf.Includes = append(nf.Includes, &idl.Include{Path: namesake})
+		}
 		cp.Files = append(cp.Files, &nf)
 	}
 	return &cp
+}
+
+// namesake is the base name shared by two different files of a tree program.
+const namesake = "zz_shared.frugal"
+
+var namesakeText = map[string]string{
+	namesake:          "struct ZzSharedTop {\n  1: i32 a\n}\n",
+	"sub/" + namesake: "enum ZzSharedKind {\n  X,\n  Y\n}\nstruct ZzSharedSub {\n  1: string b,\n  2: ZzSharedKind k\n}\n",
 }
 
 // compile runs the compiler once and hashes the tree below outAbs.
@@ -723,6 +737,30 @@ func (c *c19) runVariation(j *job, v, srcA, outA, rootFile string) (*obs, []stri
 			file = filepath.Join("..", rootFile)
 		}
 		return c.compile(j, filepath.Join(srcA, "sub"), file, outA, outA), []string{outA}
+	case "root-through-symlink":
+		// the root IDL is a symbolic link; its target lives in another
+		// directory, under another base name, next to files that bear the names
+		// of the includes but hold other content.  The program is what the link's
+		// own directory says: name of the link, includes next to the link.
+		src := filepath.Join(j.Dir, "L", "src")
+		elsewhere := filepath.Join(j.Dir, "L", "elsewhere")
+		others, decoys := map[string]string{}, map[string]string{"zz_real_root.frugal": j.Src[rootFile]}
+		for n, t := range j.Src {
+			if n != rootFile {
+				others[n] = t
+				decoys[n] = "struct ZzDecoy {\n  1: i32 zz\n}\n"
+			}
+		}
+		c.writeSources(src, others)
+		c.writeSources(elsewhere, decoys)
+		target := filepath.Join("..", "elsewhere", "zz_real_root.frugal")
+		if j.P%2 == 1 {
+			target = filepath.Join(elsewhere, "zz_real_root.frugal")
+		}
+		if err := os.Symlink(target, filepath.Join(src, rootFile)); err != nil {
+			return nil, nil
+		}
+		return c.compile(j, src, rootFile, "out", filepath.Join(src, "out")), []string{filepath.Join(j.Dir, "L")}
 	case "dot-slash-file":
 		// ./file and ./out spelled with a leading dot and a trailing slash
 		return c.compile(j, srcA, "./"+rootFile, "./out/", outA), []string{outA}
@@ -776,7 +814,7 @@ func revisions(p *idl.Program, style idl.Style, src map[string]string) (plus, mi
 }
 
 // alwaysVars are applied to every key on top of the rotating ones.
-var alwaysVars = []string{"cwd-holds-decoy-includes", "cwd-subdir-of-idl-tree"}
+var alwaysVars = []string{"cwd-holds-decoy-includes", "cwd-subdir-of-idl-tree", "root-through-symlink"}
 
 var allVars = []string{"cwd+absolute-file", "source-root", "out-absolute-nested", "out-relative-nested+relative-file-depth", "out-pre-existing-identical", "dot-slash-file"}
 
@@ -823,6 +861,9 @@ func runC19(tier string) int {
 			out := map[string]string{}
 			for n, t := range m {
 				out[layout[n]] = t
+			}
+			for n, t := range namesakeText {
+				out[n] = t
 			}
 			return out
 		}
